@@ -320,7 +320,7 @@ func checkC13() fw.Check {
 	return fw.Check{
 		Prop:  "C13",
 		Level: "exploration",
-		Rule: "the CLI binary (built from the working tree without the verif tag) and a library caller are run inside a chain of network namespaces src - R1..RN - dst whose routers are plain Linux kernels (ip_forward, ICMP rate limiting off): path lengths N, protocol in {icmp, udp, tcp syn, tcp sack, tcp prefer_sack} (+ IPv6 for icmp/udp), destination port open (python listener) / closed / SACK disabled (net.ipv4.tcp_sack=0), one router with ICMP generation suppressed, first TTL > 1 with the explicit destination flag, several traceroutes at once (parallel CLI processes and one multi-query request); every reply comes from the kernel's IP/ICMP/TCP stack; oracle: the hop chain equals [R1..RN, destination] exactly, RTT >= 0, destination flag only on the last hop, closed port reached via RST, silent router as empty hop, SACK-less target fails (sack) / falls back (prefer_sack). A mismatch is re-run twice and only reported when it fails every time (kernel timing noise is not a verdict); a CLI watchdog makes the case inconclusive. " +
+		Rule: "the CLI binary (built from the working tree without the verif tag) and a library caller are run inside a chain of network namespaces src - R1..RN - dst whose routers are plain Linux kernels (ip_forward, ICMP rate limiting off): path lengths N, protocol in {icmp, udp, tcp syn, tcp sack, tcp prefer_sack} (+ IPv6 for icmp/udp), destination port open (python listener) / closed / SACK disabled (net.ipv4.tcp_sack=0), one router with ICMP generation suppressed, first TTL > 1 with the explicit destination flag, several traceroutes at once (parallel CLI processes and one multi-query request); every reply comes from the kernel's IP/ICMP/TCP stack; oracle: the hop chain equals [R1..RN, destination] exactly, RTT >= 0, destination flag only on the last hop, closed port reached via RST, silent router as empty hop, SACK-less target fails (sack) / falls back (prefer_sack). After a mismatch the configuration is repeated (up to 5 runs): 3 mismatches are a verdict, 3 matches are kernel timing noise; a CLI watchdog makes the case inconclusive. " +
 			"distinct_nontrivial counts distinct (N, protocol, destination state, special) configurations whose chain matched",
 		Workers:       4,
 		MinNontrivial: 8,
@@ -366,6 +366,9 @@ func checkC13() fw.Check {
 					cliChain(fmt.Sprintf("udp6/N%d", n), n, true, "-P", "udp", "-q", "1", "-Q", "0"),
 					cliChain(fmt.Sprintf("multi-query-udp/N%d", n), n, false, "-P", "udp", "-q", "3", "-Q", "3"),
 					cliChain(fmt.Sprintf("multi-query-tcp-sack/N%d", n), n, false, "-P", "tcp", "-p", "8080", "--tcp-method", "sack", "-q", "3", "-Q", "2"),
+					cliChain(fmt.Sprintf("multi-query-tcp-sack-q6/N%d", n), n, false, "-P", "tcp", "-p", "8080", "--tcp-method", "sack", "-q", "6", "-Q", "0"),
+					cliChain(fmt.Sprintf("multi-query-tcp-prefer-sack-q5/N%d", n), n, false, "-P", "tcp", "-p", "8080", "--tcp-method", "prefer_sack", "-q", "5", "-Q", "3"),
+					cliChain(fmt.Sprintf("multi-query-icmp-q5/N%d", n), n, false, "-P", "icmp", "-q", "5", "-Q", "5"),
 				)
 			}
 			n0 := ns[len(ns)-1]
@@ -483,30 +486,56 @@ func runC13(c *fw.Ctx, id, tag string, cfg c13Cfg) {
 		l.sysctl(l.n+1, "net.ipv4.tcp_sack=0")
 	}
 	// warm-up: neighbour tables (ARP/NDP) along the path; not judged
-	l.cli("-P", "udp", "-q", "1", "-Q", "0", "-m", fmt.Sprint(l.n+2), "--timeout", "300", l.dest(false))
-	l.cli("-P", "udp", "--ipv6", "-q", "1", "-Q", "0", "-m", fmt.Sprint(l.n+2), "--timeout", "300", l.dest(true))
+	for _, v6 := range []bool{false, true} {
+		for try := 0; try < 4; try++ {
+			args := []string{"-P", "udp", "-q", "1", "-Q", "0", "-m", fmt.Sprint(l.n + 2), "--timeout", "400"}
+			if v6 {
+				args = append(args, "--ipv6")
+			}
+			o := l.cli(append(args, l.dest(v6))...)
+			if len(o.runs) == 1 && len(o.runs[0]) > 0 && o.runs[0][len(o.runs[0])-1].IP == l.dest(v6) {
+				break // the destination answered: every neighbour entry along the path is resolved
+			}
+		}
+	}
+	// a first-time match ends the case. After a mismatch the configuration is repeated (up to 5 runs in all):
+	// 3 mismatches are a verdict (a deterministic defect fails every time, a probabilistic one most of the time),
+	// 3 matches mean kernel timing noise.
 	var problems []string
 	var last c13Out
-	for attempt := 0; attempt < 3; attempt++ {
+	ok := 0
+	for attempt := 0; attempt < 5; attempt++ {
 		o, p := cfg.run(l)
 		last = o
 		c.Count("cli_or_library_invocations", 1)
 		if p == "" {
-			c.Nontrivial(cfg.name)
-			c.Count("chains_matched", 1)
-			if attempt > 0 {
-				c.Count("retries_needed", attempt)
+			ok++
+			if attempt == 0 || ok >= 3 {
+				c.Nontrivial(cfg.name)
+				c.Count("chains_matched", 1)
+				if attempt > 0 {
+					c.Count("cases_with_retries", 1)
+				}
+				if len(o.runs) > 0 {
+					c.Sample(map[string]any{"case": id, "chain": fmtC13(o.runs[0])})
+				}
+				return
 			}
-			if len(o.runs) > 0 {
-				c.Sample(map[string]any{"case": id, "chain": fmtC13(o.runs[0])})
-			}
-			return
+			continue
 		}
 		if strings.Contains(p, "WATCHDOG") {
 			c.Inconclusive(id + ": CLI watchdog fired")
 			return
 		}
 		problems = append(problems, p)
+		fmt.Printf("C13-MISMATCH %s attempt %d: %s\n", id, attempt, p)
+		if len(problems) >= 3 {
+			break
+		}
 	}
-	c.Violate("C13", "chain-mismatch/"+strings.SplitN(cfg.name, "/", 2)[0], fmt.Sprintf("%s: wrong result in 3 of 3 attempts: %s", id, problems[len(problems)-1]), map[string]any{"attempts": problems, "last_output": last.raw})
+	if len(problems) >= 3 {
+		c.Violate("C13", "chain-mismatch/"+strings.SplitN(cfg.name, "/", 2)[0], fmt.Sprintf("%s: wrong result in %d of %d runs: %s", id, len(problems), len(problems)+ok, problems[len(problems)-1]), map[string]any{"attempts": problems, "last_output": last.raw})
+		return
+	}
+	c.Inconclusive(fmt.Sprintf("%s: %d mismatching and %d matching runs", id, len(problems), ok))
 }
